@@ -546,4 +546,41 @@ example : ∀ t, t ∈ (roundPairs Nuts.C07.Ex.exCfg Nuts.C07.Ex.idealEnv { key 
     Nuts.C07.Ex.exPairInv.nia Nuts.C07.Ex.exPairInv.nib (by decide) (by decide) (by decide) (by decide)
     Nuts.C07.Ex.exPairInv.la Nuts.C07.Ex.exPairInv.lb 2 (by decide)).1
 
+/-! ### the three layers in step -/
+
+/-- **The protocol model's `Add` simulates the admission model's.** If a protocol node's DAG is the view of an admission
+    state, then after C07's `addTx` (decision `addCheck`, then `commitTx`) of the view of ANY transaction and payload its
+    DAG is the view of the admission state after C06's `add` of that transaction — admitted, rejected or duplicate alike.
+    Hence along any sequence of `Add` calls the three layers stay in step: C07's DAG = view of C06's list, C08's stored set
+    = image of C06's list (`admitted_stream_digests`). -/
+theorem protocol_add_simulates_admission (a : Adm) (w : Wire) (cfg7 : Proto.Cfg) (env7 : Proto.Env) (s : C06.St)
+    (n : Proto.Node) (hn : n.dag = view w a.env s) (tx : C06.Tx) (p : Option Nat) :
+    (addTx cfg7 env7 n (viewTx w a.env tx) (p.map (viewPayload a.env.sha))).1.dag = view w a.env (C06.add a.env a.subs s tx p).1 ∧
+    ((addTx cfg7 env7 n (viewTx w a.env tx) (p.map (viewPayload a.env.sha))).2.2 = .added ↔
+      (C06.add a.env a.subs s tx p).1.txs = tx :: s.txs) := by
+  have hiff := add_decisions_agree a w s tx p
+  rw [← hn] at hiff
+  unfold addTx
+  cases hc : addCheck n.dag (viewTx w a.env tx) (p.map (viewPayload a.env.sha)) with
+  | added =>
+    have h6 := hiff.mp hc
+    refine ⟨?_, by simp [h6]⟩
+    show (commitTx cfg7 n _ _).dag = _
+    unfold view
+    rw [h6, List.map_cons, ← show view w a.env s = s.txs.map (viewTx w a.env) from rfl, ← hn]
+    rfl
+  | present | prevMissing | badClock | badSig | payloadMismatch | rootExists =>
+    have hne : ¬ (C06.add a.env a.subs s tx p).1.txs = tx :: s.txs := by
+      intro h; have := hiff.mpr h; rw [hc] at this; cases this
+    have hsame : (C06.add a.env a.subs s tx p).1 = s := by
+      rcases @C06.add_cases a.env a.subs s tx p with e | ⟨_, ha⟩
+      · exact e
+      · exact absurd ha.txs hne
+    refine ⟨?_, ?_⟩
+    · show n.dag = _
+      rw [hsame]; exact hn
+    · constructor
+      · intro h; cases h
+      · intro h; exact absurd h hne
+
 end Nuts.Compose.Dag.Props
